@@ -1096,3 +1096,27 @@ def replay_rnp(rec):
         _rnp_mod.ckk_optimal = orig
     return [{"label": "rnp.difference_differs_from_model", "m": rec["diff"], "c": got, "key": key},
             {"label": "rnp.number_of_two_way_base_cases_differs_from_model", "m": rec["calls"], "c": count[0], "key": key}]
+
+
+# ------------------------------------------------------------------ bin-completion helper functions (assumptions of BinCompletion.tla)
+from prtpy.packing import bin_completion_utils as _bcu
+
+
+def run_bc_helper(st):
+    if st["kind"] == "comp":
+        t = {"kind": "comp", "x": st["x"], "items": list(st["items"]), "C": st["C"], "out": "ret", "comps": []}
+        try:
+            items = list(st["items"])
+            res = _bcu.find_bin_completions(st["x"], items, st["C"])
+            t["comps"] = [[int(v) for v in c] for c in res]
+            if items != list(st["items"]):
+                t["out"] = "bad:argument_modified"
+        except Exception as e:
+            t["out"] = outcome_of_exception(e)
+        return t
+    t = {"kind": "dom", "l1": list(st["l1"]), "l2": list(st["l2"]), "out": "ret", "ans": 0}
+    try:
+        t["ans"] = 1 if _bcu.is_dominant(list(st["l1"]), list(st["l2"])) else 0
+    except Exception as e:
+        t["out"] = outcome_of_exception(e)
+    return t
